@@ -14,7 +14,12 @@ use std::sync::{Arc, Mutex};
 use std::task::{Context, Poll, Waker};
 use tokio::io::{AsyncRead, AsyncWrite, ReadBuf};
 
-const SESSION: u16 = 0x1234;
+// The session id of the scripted cache.  It is a header field like any other: the same two octets carry an error code in an
+// Error PDU and flags in a router key or ASPA PDU, so the ids used include small numbers that mean something there.
+thread_local! { static SESSION_ID: std::cell::Cell<u16> = const { std::cell::Cell::new(0x1234) }; }
+const SESSIONS: [u16; 8] = [0x1234, 4, 0, 2, 8, 0x0100, 0xffff, 10];
+#[allow(non_snake_case)]
+fn SESSION() -> u16 { SESSION_ID.with(|s| s.get()) }
 
 #[derive(Default)]
 struct Wire {
@@ -115,7 +120,7 @@ fn pdu_bytes(p: &Value, serial: u32) -> Vec<u8> {
     let len = p["len"].as_u64().unwrap() as u32;
     let body = p["body"].as_u64().unwrap() as usize;
     let code = p["code"].as_u64().unwrap() as u16;
-    let sess: u16 = match t { 3 | 7 | 0 | 1 => SESSION, 10 => code, 9 | 11 => 0x0100, _ => 0 };
+    let sess: u16 = match t { 3 | 7 | 0 | 1 => SESSION(), 10 => code, 9 | 11 => 0x0100, _ => 0 };
     let mut out = vec![v, t];
     out.extend_from_slice(&sess.to_be_bytes());
     out.extend_from_slice(&len.to_be_bytes());
@@ -203,7 +208,7 @@ fn run_case(c: &Value) -> Outcome {
     }
     let want_steps = c["verdicts"].as_array().unwrap().len();
     let rt = tokio::runtime::Builder::new_current_thread().enable_time().start_paused(true).build().unwrap();
-    let state = if c["start_state"] == true { Some(State::from_parts(SESSION, Serial::from(99))) } else { None };
+    let state = if c["start_state"] == true { Some(State::from_parts(SESSION(), Serial::from(99))) } else { None };
     let mut verdicts = Vec::new();
     let mut hung = false;
     let mut final_state = false;
@@ -255,6 +260,7 @@ pub fn replay(args: &[String]) {
     let cases = read_cases(&args[0]);
     let mut s = Summary::new();
     for (i, c) in cases.iter().enumerate() {
+        SESSION_ID.with(|s| s.set(SESSIONS[i % SESSIONS.len()]));
         match guarded(|| run_case(c)) {
             Err(m) => s.violation("client:panic", format!("the client panics: {m}"), c.clone()),
             Ok(o) => {
@@ -343,6 +349,7 @@ pub fn drive(args: &[String]) {
     let mut t = TraceOut::create(&out);
     let mut s = Summary::new();
     for conv in 0..n {
+        SESSION_ID.with(|s| s.set(*rng.pick(&SESSIONS)));
         let sv = rng.below(3);
         let start_state = rng.chance(1, 3);
         let wire = Arc::new(Mutex::new(Wire::default()));
@@ -403,7 +410,7 @@ pub fn drive(args: &[String]) {
         }
         t.ev(json!({"ev": "start", "sv": sv, "state": start_state}));
         let rt = tokio::runtime::Builder::new_current_thread().enable_time().start_paused(true).build().unwrap();
-        let state = if start_state { Some(State::from_parts(SESSION, Serial::from(99))) } else { None };
+        let state = if start_state { Some(State::from_parts(SESSION(), Serial::from(99))) } else { None };
         let w2 = wire.clone();
         let res = guarded(|| {
             let mut evs: Vec<Value> = Vec::new();
